@@ -39,7 +39,9 @@ def blockParse : Tok Block := do
   | "call" => pure (.closeCall a)
   | "wake" => pure (.closeWake i a)
   | "gb" => pure (.closeGoodbye i)
-  | "md" => pure (.closeMarkDone i)
+  | "md" => pure (.closeMarkDone i none)
+  | "tc" => pure (.closeThreadsCheck i)
+  | "ts" => pure (.closeThreadsStop i)
   | "sd" => pure (.closeShutdown i)
   | "fin" => pure (.closeFinish i)
   | "ab" => pure (.closeAbort i)
@@ -52,7 +54,8 @@ def stepParse : Tok CloseStepObs := do
   let gb ← Tok.nat
   let r ← Tok.next
   let raised ← (match r with
-    | "-" => pure none | "nr" => pure (some Exc.notRunning) | "ca" => pure (some Exc.cancelled) | _ => failure : Tok (Option Exc))
+    | "-" => pure none | "nr" => pure (some Exc.notRunning) | "ca" => pure (some Exc.cancelled)
+    | "re" => pure (some Exc.runtimeError) | "to" => pure (some Exc.timeout) | _ => failure : Tok (Option Exc))
   let d ← Tok.bool; let t ← Tok.bool; let c ← Tok.bool
   pure ⟨bs, reg, gb, raised, ⟨d, t, c⟩⟩
 
@@ -64,9 +67,36 @@ def c17closes (toks : List String) : String :=
       let steps ← Tok.list stepParse; Tok.done
       pure (d, t, c, r, steps) : Tok (Bool × Bool × Bool × Bool × List CloseStepObs)).run toks with
   | some ((d, t, c, r, steps), _) =>
-    let h : Host := { hostOfFlags d t c false 1 with running := r, browsers := [⟨true, false, true, true⟩, ⟨false, false, true, true⟩] }
+    let b1 : Browser := { tracked := true, cancelled := false, timer := true, listening := true }
+    let b2 : Browser := { tracked := false, cancelled := false, timer := true, listening := true }
+    let h : Host := { hostOfFlags d t c false 1 with running := r, browsers := [b1, b2] }
     let vs := replayCloses h steps
     if vs.isEmpty then "-" else ";".intercalate vs
+  | none => "bad-op"
+
+def snapParse : Tok SyncSnap := do
+  let d ← Tok.bool; let t ← Tok.bool; let c ← Tok.bool; let lt ← Tok.bool; let lr ← Tok.bool
+  let reg ← Tok.nat; let zb ← Tok.nat; let zc ← Tok.nat
+  pure ⟨d, t, c, lt, lr, reg, zb, zc⟩
+
+/-- `c17sync <call> <caller|-> <before: done tclosed cleanup loopThread loopRunning registry zcBrowsers zcCancelled> <after: same>
+<goodbyes> <raised>`: one of the four calls `Zeroconf.close()` makes, observed on real threads (`acceptSyncCall`) -/
+def c17sync (toks : List String) : String :=
+  match (do
+      let call ← Tok.next
+      let caller ← Tok.optNat
+      let before ← snapParse
+      let after ← snapParse
+      let gb ← Tok.nat
+      let r ← Tok.next
+      let raised ← (match r with
+        | "-" => pure none | "re" => pure (some Exc.runtimeError) | "to" => pure (some Exc.timeout) | _ => failure : Tok (Option Exc))
+      Tok.done
+      let c ← (match call with
+        | "unregister" => pure SyncCall.unregister | "markdone" => pure (SyncCall.markDone caller)
+        | "engine" => pure SyncCall.engineClose | "threads" => pure SyncCall.threads | _ => failure : Tok SyncCall)
+      pure (c, before, after, gb, raised) : Tok (SyncCall × SyncSnap × SyncSnap × Nat × Option Exc)).run toks with
+  | some ((c, b, a, gb, r), _) => acceptSyncCall c b a gb r
   | none => "bad-op"
 
 def dispatch (cmd : String) (rest : List String) : Option String :=
@@ -74,6 +104,7 @@ def dispatch (cmd : String) (rest : List String) : Option String :=
   | "c17run" => some (c17run rest)
   | "c17closed" => some (c17closed rest)
   | "c17closes" => some (c17closes rest)
+  | "c17sync" => some (c17sync rest)
   | _ => none
 
 end Zc.Driver.C17
